@@ -42,7 +42,8 @@ VIOLATIONS = [
 FILLER_FILE = ["int f%d = %d;", "static long g%d = %d;", "int h%d(void) { return %d; }", "struct sf%d { int a; char b; };", "typedef int tf%d; tf%d tv%d;"[:0] or "enum { EF%d = %d };",
                "extern int x%d;", "char s%d[] = \"str%d\";"]
 FILLER_BLOCK = ["int l%d = %d;", "l_acc += %d + %d;", "if (l_acc > %d) l_acc -= %d;", "{ int n%d = %d; l_acc += n%d; }"[:0] or "while (l_acc > 100000 + %d) l_acc -= %d;", ";"]
-NAMES = ["a.c", "dir/b.c", "x_y-z.h", "/abs/p.c", "f1.i", "../up.c", "n.0"]
+# names with prefix relations among each other and with the presumed name of the input itself ("<stdin>")
+NAMES = ["a.c", "dir/b.c", "x_y-z.h", "/abs/p.c", "f1.i", "../up.c", "n.0", "a", "a.c.in", "dir/b", "dir", "<stdin", "<stdin>x", "<", "f1.i", "f1", "x_y-z.h.h"]
 
 
 @st.composite
